@@ -33,8 +33,15 @@ def bump_py(b):
     return datetime.timedelta(microseconds=b['td_us'])
 
 def impl_setup():
-    global drange
-    from pyg_base import drange
+    global drange, calendar
+    from pyg_base import drange, calendar
+
+def endpoint(T, ep):
+    """other spellings of the same endpoint (resolved by date_range / dt)"""
+    if ep == 'date': return T.date()
+    if ep == 'int': return T.year * 10000 + T.month * 100 + T.day
+    if ep == 'iso': return T.isoformat()
+    return T
 
 def step_fn(b):
     """the single-step function of the property text"""
@@ -82,7 +89,11 @@ def expected_list(t0, t1, b):
 
 def impl(case):
     t0 = us2dt(case['t0']); t1 = us2dt(case['t1']); b = case['bump']
-    st, r = call(drange, t0, t1, bump_py(b))
+    B = bump_py(b)
+    if case.get('upper') and isinstance(B, str):
+        B = B.upper()
+    f = calendar().drange if case.get('via') == 'calendar' else drange
+    st, r = call(f, endpoint(t0, case.get('ep0')), endpoint(t1, case.get('ep1')), B)
     obs = [dt2us(x) for x in r] if st == 'ok' else ['ERR', st]
     viol = None
     exp = expected_list(t0, t1, b)
@@ -119,6 +130,7 @@ def nontrivial(case, result):
 def shape(case):
     b = case['bump']
     d = 'fwd' if case['t0'] < case['t1'] else 'bwd' if case['t0'] > case['t1'] else 'eq'
+    d += ('/ep' if case.get('ep0') else '') + ('/cal' if case.get('via') else '') + ('/upper' if case.get('upper') else '')
     if b is None: return 'none/' + d
     if 'str' not in b: return list(b)[0] + '/' + d
     toks = tokens(b['str'])
@@ -194,6 +206,17 @@ def gen_cases(rng, tier):
         t0 = a * DAYUS; t1 = (a + span) * DAYUS
         if rng.random() < 0.5: t0, t1 = t1, t0
         add(t0, t1, {'str': s})
+    for c in cases:                # other spellings of the same call (endpoint resolution, Calendar.drange for non-b bumps, upper case)
+        b = c['bump']; r = rng.random()
+        isb = b is not None and 'str' in b and b['str'].lower().endswith('b')    # Calendar.drange reads any string ending in 'b' as '<int>b' (C05's business-day path)
+        if r < 0.12 and c['t0'] % DAYUS == 0 and c['t1'] % DAYUS == 0:
+            c['ep0'] = rng.choice(['date', 'int', 'iso']); c['ep1'] = rng.choice(['date', 'int', 'iso', 'dt'])
+        elif r < 0.2:
+            c['ep0'] = 'iso'; c['ep1'] = rng.choice(['iso', 'dt'])
+        elif r < 0.3 and not isb:
+            c['via'] = 'calendar'
+        elif r < 0.4 and b is not None and 'str' in b:
+            c['upper'] = 1
     return cases
 
 def shrink(case):
